@@ -14,6 +14,11 @@
 (*   exc 0   an exception OBJECT as a value (no branch produces it since   *)
 (*           /repo 00430dc; inputs never hold one)                         *)
 (*   fail 0  "the loader raised" (never a value of a configuration)        *)
+(*   sub <<class, base>>  a TYPED OBJECT that is an instance of a SUBCLASS *)
+(*        of int / str (class MyInt(int), an IntEnum member, PositiveInt(2),*)
+(*        class MyStr(str), a member of class SE(str, Enum), NotEmptyStr): *)
+(*        base is the IntV / StrV it equals.  Only ever an INPUT object    *)
+(*        (parse_object, link source); never text.  (Round 4, C02)         *)
 (* TYPE TERMS use the same record shape:                                   *)
 (*   str int float bool none any path <<>>     leaf types                  *)
 (*   rstr / rnum / reg <<[name]>>  user-defined restricted str / number    *)
@@ -134,6 +139,10 @@ RegV(n, code) == [k |-> "reg", v |-> <<n, code>>]  \* a value of the registered 
 FileV(name, c) == [k |-> "file", v |-> <<name, c>>] \* INPUT only: the name of an existing config file whose content loads as c
 ExcV          == [k |-> "exc", v |-> 0]
 FailV         == [k |-> "fail", v |-> 0]
+SubV(c, b)    == [k |-> "sub", v |-> <<c, b>>]     \* an instance of the subclass c of int / str; b: the plain IntV / StrV it is == to
+IsSub(x)      == x.k = "sub"
+Base(x)       == IF x.k = "sub" THEN x.v[2] ELSE x
+IsStrLike(x)  == Base(x).k = "str"                 \* isinstance(x, str)
 ASSUME IntV(1) # StrV("a") /\ FieldOrder.k = "tag"        \* dies at start-up if the field order is not tag-first
 
 LeafT(c)      == [k |-> c, v |-> << >>]
@@ -207,7 +216,8 @@ Canon(x) == CASE x.k \in {"list", "tuple"} -> [k |-> x.k, v |-> [n \in 1..Len(x.
 IsNum(a)  == a.k \in {"bool", "int", "float"}
 NumOf(a)  == IF a.k = "bool" THEN <<IF a.v THEN 1 ELSE 0, 1>> ELSE IF a.k = "int" THEN <<a.v, 1>> ELSE a.v
 RECURSIVE PyEq(_, _)
-PyEq(a, b) == IF IsNum(a) /\ IsNum(b) THEN NumOf(a) = NumOf(b)          \* True == 1 == 1.0
+PyEq(a, b) == IF a.k = "sub" \/ b.k = "sub" THEN PyEq(Base(a), Base(b))   \* MyInt(1) == 1, IE.X == 1, SE.P == 'abc'
+              ELSE IF IsNum(a) /\ IsNum(b) THEN NumOf(a) = NumOf(b)          \* True == 1 == 1.0
               ELSE IF a.k # b.k THEN FALSE
               ELSE IF a.k = "tuple" THEN Len(a.v) = Len(b.v) /\ \A i \in 1..Len(a.v) : PyEq(a.v[i], b.v[i])
               ELSE a = b
@@ -411,13 +421,19 @@ RECURSIVE PairFold(_, _, _, _)
 PairFold(kt, ps, i, acc) == IF i > Len(ps) THEN acc ELSE PairFold(kt, ps, i + 1, PutPair(acc, KeyRes(kt, ps[i][1]), ps[i][2]))
 FoldKeys(kt, ps) == PairFold(kt, ps, 1, << >>)
 LeafRead(c, x) == IF IsStr(x) /\ c # "str" THEN LeafLoad(x.v) ELSE x       \* strings are read as YAML scalars for the
+\* a TYPED OBJECT of a subclass of int / str is judged by isinstance alone (it is not text: nothing is read from it):
+\* accepted where its base class is declared; an int instance is accepted for float (and becomes one); never for bool
+SubLeafAcc(c, x) == (c = "str" /\ Base(x).k = "str") \/ (c \in {"int", "float"} /\ Base(x).k = "int")
 LeafAcc(c, x) ==                                                          \* non-str leaf types (also inside objects)
+  IF x.k = "sub" THEN SubLeafAcc(c, x) ELSE
   CASE c = "str"   -> x.k = "str"
     [] c = "int"   -> LeafRead(c, x).k = "int"
     [] c = "float" -> LeafRead(c, x).k \in {"int", "float"}
     [] c = "bool"  -> LeafRead(c, x).k = "bool"
     [] c = "none"  -> LeafRead(c, x).k = "none"
-LeafRes(c, x) == LET y == LeafRead(c, x) IN IF c = "float" /\ y.k = "int" THEN {FloatV(y.v, 1)} ELSE {y}
+\* (the documentation does not say whether an instance of a subclass is kept or cast to the declared class: both conform)
+LeafRes(c, x) == IF x.k = "sub" THEN (IF c = "float" THEN {FloatV(Base(x).v, 1)} ELSE {x, Base(x)})
+                 ELSE LET y == LeafRead(c, x) IN IF c = "float" /\ y.k = "int" THEN {FloatV(y.v, 1)} ELSE {y}
 \* a string is a literal if it is one, or if it reads as a non-string literal member
 LitRead(t, x) == IF IsStr(x) /\ x \notin LitMembers(t) THEN LeafLoad(x.v) ELSE x
 Acc(t, x) ==
@@ -460,7 +476,7 @@ Res(t, x) ==
 RECURSIVE Conforms(_, _)
 Conforms(t, x) ==
   CASE t.k = "any"       -> ~IsStr(x) \/ LoadSimple(x.v) = x                 \* a string that spells something else is not normalised
-    [] t.k \in LeafKinds -> x.k = t.k
+    [] t.k \in LeafKinds -> x.k = t.k \/ (x.k = "sub" /\ Base(x).k = t.k)       \* isinstance: an instance of a subclass conforms
     [] t.k = "path"      -> x.k = "path"
     [] t.k = "rstr"      -> IsStr(x) /\ x.v \in RStrDefs[DefName(t)].m
     [] t.k = "rnum"      -> x.k = RNumDefs[DefName(t)].base /\ RNumHolds(RNumDefs[DefName(t)], x)
@@ -502,7 +518,7 @@ Er(dev, m)      == [ok |-> FALSE, v |-> NoneV, dev |-> dev, m |-> m]
 \* sequence / mapping members (List, Dict -- not Tuple, Set) before the others
 IsSeqOrMapT(t) == t.k \in {"list", "dict"}
 SortUnion(ts, val) ==
-  IF IsStr(val)
+  IF IsStrLike(val)                                                                      \* isinstance(val, str)
   THEN SelectSeq(ts, LAMBDA mb : mb.k = "none") \o SelectSeq(ts, LAMBDA mb : mb.k # "none" /\ IsSeqOrMapT(mb))
        \o SelectSeq(ts, LAMBDA mb : mb.k # "none" /\ ~IsSeqOrMapT(mb))
   ELSE SelectSeq(ts, LAMBDA mb : mb.k = "none") \o SelectSeq(ts, LAMBDA mb : mb.k # "none")
@@ -550,7 +566,15 @@ AlgAdapt(t, val, orig, top, ser) ==
          IN IF ~r1.ok THEN r1
             ELSE IF mem(r1.v) THEN Ok(r1.v, r1.dev \cup (IF r1.v \in LitMembers(t) THEN {} ELSE {"litEq"}), val)
             ELSE Er(r1.dev, val)
-    [] t.k \in LeafKinds ->                                                              \* :780-787
+    [] t.k \in LeafKinds /\ val.k = "sub" ->                                             \* :780-787 for an instance of a subclass of int / str
+         \* :781-783 isinstance(val, str) and typehint is not str: yaml.load of a str SUBCLASS raises TypeError ("a string or
+         \* stream input is required"), which is not a loader exception and leaves adapt_typehints (caught by a Union loop,
+         \* or by _check_type:603);  :784-785 float(val) of an int instance;  :789 isinstance(val, typehint) -- kept as it is
+         IF Base(val).k = "str" /\ t.k # "str" THEN Er({}, val)
+         ELSE IF t.k = "float" /\ Base(val).k = "int" THEN Ok(FloatV(Base(val).v, 1), {}, val)
+         ELSE IF IsInstance(t.k, Base(val)) THEN Ok(val, {}, val)
+         ELSE Er({}, val)
+    [] t.k \in LeafKinds /\ val.k # "sub" ->                                             \* :780-787
          LET v1 == IF IsStr(val) /\ t.k # "str" THEN LeafLoad(val.v) ELSE val             \* also when serialising
              v2 == IF t.k = "float" /\ v1.k = "int" THEN FloatV(v1.v, 1) ELSE v1         \* isinstance(val, int) and not bool
          IN IF ~IsInstance(t.k, v2) \/ (t.k \in {"int", "float"} /\ v2.k = "bool") THEN Er({}, val)
